@@ -22,7 +22,7 @@ floors = json.load(open("/verif/floors.json"))
 for it, r in zip(items, res):
     iid, status, keys = r[0], r[1], r[2]
     counts = r[3] if len(r) > 3 else None
-    if counts is not None and it["kind"].startswith("benign"):
+    if counts is not None and it["kind"].startswith("benign") and status == "analysed":   # floors describe the current tree only
         low = sorted(ru for ru in props.RULE_TEXT if selftest.below_floor(counts, floors, ru))
         if low:
             status = "below-floor:" + ",".join(low)
